@@ -12,8 +12,10 @@ import GPVerif.Bridge.KernelLemmas
 import GPVerif.Bridge.KernelCalc
 import GPVerif.Bridge.FastPath
 import GPVerif.Bridge.GradKernels
+import GPVerif.Bridge.GradGrad
 import GPVerif.Bridge.NewtonGirard
 import GPVerif.Gen.Formulas
+import GPVerif.Bridge.GenKernels
 
 namespace C05
 open Scalar Kernels Gen.Formulas
@@ -76,6 +78,116 @@ theorem matern52_fast_eq_spec (a b m : List ℝ) (l : ℝ) (ha : a.length = m.le
 /-- generic path of `MaternKernel.forward` (centre, scale, distance, closed form) = documented formula -/
 theorem matern_generic_eq_spec (nu2 : ℕ) (ls c a b : List ℝ) (ha : a.length = c.length) (hb : b.length = c.length) :
     maternImpl nu2 ls c a b = maternSpec nu2 ls a b := FastPath.matern_generic_eq_spec nu2 ls c a b ha hb
+
+
+/-! ### kernel `forward` methods and distance helpers REGENERATED from the source (`Gen/KernelFormulas.lean`)
+
+Every term below is produced by `harness/translate/g5_kernels.py` from the working tree on every run; the
+theorems say that the generated entry equals the documented `Spec` (callbacks = the Euclidean distances). -/
+
+section generated
+open Gen.KernelFormulas
+
+/-- generated `sq_dist` (quadratic expansion after centering, concatenated matmul, `clamp_min_(0)`; also the
+`x1 is x2` off-diagonal entries) = squared distance -/
+theorem sqDist_gen_eq_spec (a b c : List ℝ) (ha : a.length = c.length) (hb : b.length = c.length) :
+    sqDistGen a b c = sqDist a b ∧ sqDistGenSameOff a b c = sqDist a b := by
+  rw [(sqDistGen_eq_impl a b c).1, (sqDistGen_eq_impl a b c).2, sqDistImpl_eq c a b ha hb]; exact ⟨rfl, rfl⟩
+
+/-- generated `sq_dist`, diagonal entry under `x1 is x2` (zero-fill, then clamp) = `‖a − a‖² = 0` -/
+theorem sqDist_gen_diag_eq_spec (a b c : List ℝ) : sqDistGenSameDiag a b c = sqDist a a := by
+  simp [sqDistGenSameDiag, sqDist_self]
+
+/-- generated `dist`: `cdist` clamped at `1e-15`, resp. `√(clamp(sq_dist, 1e-30))`; equal to the Euclidean
+distance whenever the clamp is inactive -/
+theorem dist_gen_eq_spec (a b c : List ℝ) (ha : a.length = c.length) (hb : b.length = c.length) :
+    (((2535301200456459 / 2535301200456458802993406410752 : ℚ) : ℝ) ≤ Scalar.dist a b →
+        distGen Scalar.dist a b c = Scalar.dist a b) ∧
+    (((178405961588245 / 178405961588244985132285746181186892047843328 : ℚ) : ℝ) ≤ sqDist a b →
+        distGenSameOff Scalar.dist a b c = Scalar.dist a b) := by
+  constructor
+  · intro h
+    simp only [distGen, max_real, lit_real]
+    exact max_eq_left h
+  · intro h
+    have e : distGenSameOff Scalar.dist a b c = Real.sqrt (Max.max (sqDistGenSameOff a b c)
+        (((178405961588245 / 178405961588244985132285746181186892047843328 : ℚ)) : ℝ)) := rfl
+    rw [e, (sqDist_gen_eq_spec a b c ha hb).2, max_eq_left h]; rfl
+
+/-- generated generic branch of `RBFKernel.forward` (full and diag), with the generated `sq_dist` plugged in -/
+theorem rbf_generic_gen_eq_spec (ls c a b : List ℝ) (ha : a.length = ls.length) (hb : b.length = ls.length)
+    (hc : c.length = ls.length) (distf : List ℝ → List ℝ → ℝ) :
+    rbfGeneric (fun u v => sqDistGen u v c) distf a b ls = rbfSpec ls a b ∧
+    rbfGeneric sqDist distf a b ls = rbfSpec ls a b ∧ rbfGenericDiag sqDist distf a b ls = rbfSpec ls a b := by
+  have hl : ∀ x : List ℝ, x.length = ls.length → (rowDiv x ls).length = ls.length := by
+    intro x hx; simp [length_rowDiv, hx]
+  refine ⟨?_, ?_, ?_⟩
+  · simp only [rbfGeneric]
+    rw [(sqDist_gen_eq_spec _ _ c (by rw [hl a ha, hc]) (by rw [hl b hb, hc])).1, sqDist_rowDiv]
+    simp only [rbfSpec, exp_real, lit_real]; congr 1; push_cast; ring
+  all_goals
+    simp only [rbfGeneric, rbfGenericDiag, sqDist_rowDiv, rbfSpec, exp_real, lit_real]; congr 1; push_cast; ring
+
+theorem matern_generic_gen_eq_spec (ls c a b : List ℝ) (ha : a.length = c.length) (hb : b.length = c.length)
+    (sqd : List ℝ → List ℝ → ℝ) :
+    matern12Generic sqd Scalar.dist a b c ls = maternSpec 1 ls a b ∧
+    matern32Generic sqd Scalar.dist a b c ls = maternSpec 3 ls a b ∧
+    matern52Generic sqd Scalar.dist a b c ls = maternSpec 5 ls a b := by
+  have hd : Scalar.dist (rowDiv (rowSub a c) ls) (rowDiv (rowSub b c) ls) = Real.sqrt (sqDistArd ls a b) := by
+    rw [Scalar.dist, sqDist_rowDiv, sqDistArd_rowSub ls c a b ha hb]; rfl
+  refine ⟨?_, ?_, ?_⟩
+  · simp only [matern12Generic, maternSpec, maternOfDist, hd, exp_real, sqrt_real, lit_real]; simp
+  · simp only [matern32Generic, maternSpec, maternOfDist, hd, exp_real, sqrt_real, lit_real]; push_cast; ring_nf
+  · simp only [matern52Generic, maternSpec, maternOfDist, hd, exp_real, sqrt_real, lit_real, npow_real, sq_real]
+    push_cast; ring_nf
+
+theorem rq_gen_eq_spec (ls a b : List ℝ) (alpha : ℝ) (distf : List ℝ → List ℝ → ℝ) :
+    rq sqDist distf a b ls alpha = rqSpec ls alpha a b ∧ rqDiag sqDist distf a b ls alpha = rqSpec ls alpha a b := by
+  constructor <;> simp only [rq, rqDiag, rqSpec, sqDist_rowDiv, rpow_real, lit_real]
+
+theorem periodic_gen_eq_spec (ls ps a b : List ℝ) (sqd : List ℝ → List ℝ → ℝ) :
+    periodic sqd Scalar.dist a b ls ps = periodicSpec ls ps a b ∧
+    periodicDiag sqd Scalar.dist a b ls ps = periodicSpec ls ps a b := by
+  constructor <;>
+  · simp only [periodic, periodicDiag, periodicSpec]
+    rw [periodic_pipeline]
+    simp only [exp_real, lit_real]; push_cast; rfl
+
+theorem cosine_gen_eq_spec (a b : List ℝ) (p : ℝ) (sqd : List ℝ → List ℝ → ℝ) :
+    cosine sqd Scalar.dist a b p = cosineSpec p a b := by
+  simp only [cosine, cosineSpec, dist_rowDivS, cos_real, pi_real]
+  rcases abs_cases p with ⟨h, _⟩ | ⟨h, _⟩ <;> rw [h]
+  · congr 1; ring
+  · rw [← Real.cos_neg]; congr 1; ring
+
+/-- `√v·x1` against `√v·x2` (Matmul) and against itself (Root) = `Σ vᵢ aᵢ bᵢ`, for non-negative variances -/
+theorem linear_gen_eq_spec (v a b : List ℝ) (hv : ∀ x ∈ v, 0 ≤ x) :
+    linear a b v = linearSpec v a b ∧ linearSame a b v = linearSpec v a b :=
+  ⟨linear_pipeline v a b hv, linear_pipeline v a b hv⟩
+
+theorem polynomial_gen_eq_spec (a b : List ℝ) (c : ℝ) (p : ℕ) :
+    polynomial a b c p = polySpec c p a b ∧ polynomialBatched a b c p = polySpec c p a b ∧
+    polynomialDiag a b c p = polySpec c p a b := by
+  refine ⟨?_, ?_, ?_⟩ <;> simp only [polynomial, polynomialBatched, polynomialDiag, polySpec, npow_real, Scalar.dot]
+  rw [add_comm]
+
+theorem piecewisePolynomial_gen_eq_spec (ls a b : List ℝ) (sqd : List ℝ → List ℝ → ℝ) :
+    piecewisePolynomial0 sqd Scalar.dist a b ls = ppSpec 0 ls a b ∧
+    piecewisePolynomial1 sqd Scalar.dist a b ls = ppSpec 1 ls a b ∧
+    piecewisePolynomial2 sqd Scalar.dist a b ls = ppSpec 2 ls a b ∧
+    piecewisePolynomial3 sqd Scalar.dist a b ls = ppSpec 3 ls a b := by
+  have hd : Scalar.dist (rowDiv a ls) (rowDiv b ls) = Real.sqrt (sqDistArd ls a b) := by
+    rw [Scalar.dist, sqDist_rowDiv]; rfl
+  refine ⟨?_, ?_, ?_, ?_⟩ <;>
+  · simp only [piecewisePolynomial0, piecewisePolynomial1, piecewisePolynomial2, piecewisePolynomial3, ppSpec, ppOfDist,
+      ppCovSpec, ppJ, hd, npow_real, max_real, lit_real, sq_real, sqrt_real]
+    try (push_cast; ring)
+
+theorem constant_gen_eq_spec (a b : List ℝ) (c : ℝ) :
+    constantK a b c = (Kern.const c).eval a b ∧ constantKDiag a b c = (Kern.const c).eval a b := by
+  simp [constantK, constantKDiag, Kern.eval]
+
+end generated
 
 /-! ### sums, products, scalings, structure wrappers (hold for every scalar type, also the executed `Float`) -/
 
@@ -335,15 +447,8 @@ theorem polyGrad_entries_are_partials (c : ℝ) (p : ℕ) (a b : List ℝ) (k l 
         refine (hP.mul_const (b.getD k 0)).congr_deriv ?_
         push_cast; simp; ring
 
-/- Full statement (NOT proved here; decided by the correspondence: Lean entries vs implementation 1e-10, vs
-   autograd of an independent base kernel 1e-8, vs central differences of `maternSpec 5`):
-
-   theorem matern52Grad_entries_are_partials : for all rows (coincident or not), all k l < d:
-     ∂/∂a_k (0,0) = (k+1,0),  ∂/∂b_l (0,0) = (0,l+1),  ∂/∂b_l (k+1,0) = (k+1,l+1).
-
-   Proved below: the two first-derivative blocks at non-coincident (scaled) rows.  Missing: the Hessian block
-   and differentiability at r = 0 (the closed form is C² there, but `Real.sqrt` is not differentiable at 0, so
-   the chain rule through `r = √u` does not apply). -/
+/-- first-derivative blocks at non-coincident rows (kept; superseded by the full-strength
+`matern52Grad_entries_are_partials` below, which also covers the Hessian block and r = 0) -/
 theorem matern52Grad_partial (ls a b : List ℝ) (k : ℕ)
     (hka : k < a.length) (hkb : k < b.length) (hkl : k < ls.length) :
     (∀ x, 0 < sqDistArd ls (a.set k x) b →
@@ -414,36 +519,152 @@ theorem matern52Grad_partial (ls a b : List ℝ) (k : ℕ)
     simp only [matern52GradEntry, hB, hsw, gradOuter, getD_set_self b k y _ hkb, sqrt_real, exp_real, lit_real, sq_real]
     push_cast; ring
 
-/- Full statement (NOT proved; correspondence: Lean entries vs implementation 1e-10 and vs autograd of the base
-   kernel up to 4th order 1e-8): every block of RBFKernelGradGrad is the corresponding mixed partial derivative
-   (orders ≤ 2 in each argument) of `rbfSpec`.
-   Proved below: the one-dimensional core used by every block — `gaussHermite n` are the successive
-   derivatives of the Gaussian factor `exp(−t²/2ℓ²)` for n = 0..3 → 1..4.  Missing: assembling the product over
-   dimensions and the sign bookkeeping of `∂/∂b = −d/dt`. -/
+/-- **Matern52KernelGrad, full strength**: for all rows — coincident or not —, all ARD lengthscales `≠ 0`, all
+dimensions `k, l`: component `(k+1,0)` is `∂/∂a_k` of the kernel, `(0,k+1)` is `∂/∂b_k`, and the Hessian block
+`(k+1,l+1)` is `∂/∂b_l` of the `(k+1,0)` component.  At `r = 0` the chain rule through `√` is replaced by
+`hasDerivAt_radial` (the radial profile has derivative `r·G(r)`, vanishing at 0). -/
+theorem matern52Grad_entries_are_partials (ls a b : List ℝ) (k l : ℕ)
+    (hka : k < a.length) (hkb : k < b.length) (hkl : k < ls.length)
+    (hla : l < a.length) (hlb : l < b.length) (hll : l < ls.length)
+    (hk0 : ls.getD k 1 ≠ 0) (hl0 : ls.getD l 1 ≠ 0) :
+    (∀ x, HasDerivAt (fun x => matern52GradEntry ls (a.set k x) b 0 0) (matern52GradEntry ls (a.set k x) b (k + 1) 0) x) ∧
+    (∀ y, HasDerivAt (fun y => matern52GradEntry ls a (b.set l y) 0 0) (matern52GradEntry ls a (b.set l y) 0 (l + 1)) y) ∧
+    (∀ y, HasDerivAt (fun y => matern52GradEntry ls a (b.set l y) (k + 1) 0)
+            (matern52GradEntry ls a (b.set l y) (k + 1) (l + 1)) y) := by
+  have h5 : Real.sqrt 5 ^ 2 = 5 := Real.sq_sqrt (by norm_num)
+  -- radial profiles: m(r) = (1+√5 r+5/3 r²)e^{−√5 r}, m' = r·Gm;  h(r) = 5/3(1+√5 r)e^{−√5 r}, h' = r·Gh
+  have hm : ∀ r : ℝ, HasDerivAt (fun r : ℝ => (1 + Real.sqrt 5 * r + 5 / 3 * r ^ 2) * Real.exp (-(Real.sqrt 5 * r)))
+      (r * (-(5 / 3 * (1 + Real.sqrt 5 * r) * Real.exp (-(Real.sqrt 5 * r))))) r := by
+    intro r
+    have hid := hasDerivAt_id r
+    have hpoly := ((hid.const_mul (Real.sqrt 5)).const_add 1).add ((hid.pow 2).const_mul (5 / 3))
+    have hexp := (hid.const_mul (Real.sqrt 5)).neg.exp
+    refine (hpoly.mul hexp).congr_deriv ?_
+    simp only [Pi.neg_apply, Pi.pow_apply, Pi.add_apply, id]
+    ring_nf
+    rw [h5]
+    ring
+  have hh : ∀ r : ℝ, HasDerivAt (fun r : ℝ => 5 / 3 * (1 + Real.sqrt 5 * r) * Real.exp (-(Real.sqrt 5 * r)))
+      (r * (-(25 / 3 * Real.exp (-(Real.sqrt 5 * r))))) r := by
+    intro r
+    have hid := hasDerivAt_id r
+    have hpoly := ((hid.const_mul (Real.sqrt 5)).const_add 1).const_mul (5 / 3)
+    have hexp := (hid.const_mul (Real.sqrt 5)).neg.exp
+    refine (hpoly.mul hexp).congr_deriv ?_
+    simp only [Pi.neg_apply, id]
+    ring_nf
+    rw [h5]
+    ring
+  -- the b_l-coordinate form of the scaled squared distance
+  have hBl : ∀ y, sqDistArd ls a (b.set l y)
+      = sqDistArd ls a (b.set l (a.getD l 0)) + (y - a.getD l 0) ^ 2 / (ls.getD l 1) ^ 2 := by
+    intro y; rw [sqDistArd_set_right ls a b l y hla hlb hll]; ring
+  have hCl : 0 ≤ sqDistArd ls a (b.set l (a.getD l 0)) := sqDistArd_nonneg _ _ _
+  refine ⟨?_, ?_, ?_⟩
+  · intro x
+    have hA : ∀ x, sqDistArd ls (a.set k x) b
+        = sqDistArd ls (a.set k (b.getD k 0)) b + (x - b.getD k 0) ^ 2 / (ls.getD k 1) ^ 2 :=
+      fun x => sqDistArd_set_left ls a b k x hka hkb hkl
+    have hrad := hasDerivAt_radial _ _ hm (sqDistArd ls (a.set k (b.getD k 0)) b) (b.getD k 0) (ls.getD k 1) x
+      (sqDistArd_nonneg _ _ _) hk0
+    have hfun : (fun x => matern52GradEntry ls (a.set k x) b 0 0) = fun x : ℝ =>
+        (fun r : ℝ => (1 + Real.sqrt 5 * r + 5 / 3 * r ^ 2) * Real.exp (-(Real.sqrt 5 * r)))
+          (Real.sqrt (sqDistArd ls (a.set k (b.getD k 0)) b + (x - b.getD k 0) ^ 2 / (ls.getD k 1) ^ 2)) := by
+      funext x
+      simp only [matern52GradEntry, maternOfDist, hA x, sqrt_real, exp_real, lit_real, sq_real]
+      push_cast; rfl
+    rw [hfun]
+    refine hrad.congr_deriv ?_
+    simp only [matern52GradEntry, hA x, gradOuter, getD_set_self a k x _ hka, sqrt_real, exp_real, lit_real, sq_real]
+    push_cast; ring
+  · intro y
+    have hrad := hasDerivAt_radial _ _ hm (sqDistArd ls a (b.set l (a.getD l 0))) (a.getD l 0) (ls.getD l 1) y hCl hl0
+    have hfun : (fun y => matern52GradEntry ls a (b.set l y) 0 0) = fun y : ℝ =>
+        (fun r : ℝ => (1 + Real.sqrt 5 * r + 5 / 3 * r ^ 2) * Real.exp (-(Real.sqrt 5 * r)))
+          (Real.sqrt (sqDistArd ls a (b.set l (a.getD l 0)) + (y - a.getD l 0) ^ 2 / (ls.getD l 1) ^ 2)) := by
+      funext y
+      simp only [matern52GradEntry, maternOfDist, hBl y, sqrt_real, exp_real, lit_real, sq_real]
+      push_cast; rfl
+    rw [hfun]
+    refine hrad.congr_deriv ?_
+    simp only [matern52GradEntry, hBl y, gradOuter, getD_set_self b l y _ hlb, sqrt_real, exp_real, lit_real, sq_real]
+    push_cast; ring
+  · intro y
+    have hrad := hasDerivAt_radial _ _ hh (sqDistArd ls a (b.set l (a.getD l 0))) (a.getD l 0) (ls.getD l 1) y hCl hl0
+    -- the (k+1,0) component as −h(r(y))·o_k(y)
+    have hfun : (fun y => matern52GradEntry ls a (b.set l y) (k + 1) 0) = fun y : ℝ =>
+        -((fun r : ℝ => 5 / 3 * (1 + Real.sqrt 5 * r) * Real.exp (-(Real.sqrt 5 * r)))
+          (Real.sqrt (sqDistArd ls a (b.set l (a.getD l 0)) + (y - a.getD l 0) ^ 2 / (ls.getD l 1) ^ 2))
+          * gradOuter ls a (b.set l y) k) := by
+      funext y
+      simp only [matern52GradEntry, hBl y, sqrt_real, exp_real, lit_real]
+      push_cast; rfl
+    rw [hfun]
+    by_cases hkl' : l = k
+    · subst hkl'
+      have hO : HasDerivAt (fun y => gradOuter ls a (b.set l y) l) (-(1 / (ls.getD l 1) ^ 2)) y := by
+        have h0 : HasDerivAt (fun y : ℝ => (a.getD l 0 - y) / (ls.getD l 1) ^ 2) (-(1 / (ls.getD l 1) ^ 2)) y := by
+          have := ((hasDerivAt_id y).const_sub (a.getD l 0)).div_const ((ls.getD l 1) ^ 2)
+          exact this.congr_deriv (by ring)
+        have e : (fun y => gradOuter ls a (b.set l y) l) = fun y : ℝ => (a.getD l 0 - y) / (ls.getD l 1) ^ 2 := by
+          funext y; simp only [gradOuter, getD_set_self b l y _ hlb, sq_real, lit_real]; push_cast; rfl
+        rw [e]; exact h0
+      refine ((hrad.mul hO).neg).congr_deriv ?_
+      simp only [matern52GradEntry, hBl y, gradOuter, getD_set_self b l y _ hlb, delta, if_true, sqrt_real, exp_real,
+        lit_real, sq_real]
+      push_cast; ring
+    · have hc : ∀ y, gradOuter ls a (b.set l y) k = gradOuter ls a b k := by
+        intro y; simp only [gradOuter, getD_set_ne b l k y _ hkl']
+      simp only [hc]
+      refine ((hrad.mul_const (gradOuter ls a b k)).neg).congr_deriv ?_
+      simp only [matern52GradEntry, hBl y, hc, gradOuter, getD_set_self b l y _ hlb, getD_set_ne b l k y _ hkl', delta,
+        if_neg (Ne.symm hkl'), sqrt_real, exp_real, lit_real, sq_real]
+      push_cast; ring
+
+/-- the one-dimensional Hermite core (kept; the product over dimensions is `rbfGradGrad_entries_are_partials`) -/
 theorem rbfGradGrad_partial (l t : ℝ) (hl : l ≠ 0) (n : ℕ) (hn : n ≤ 3) :
     HasDerivAt (fun t : ℝ => gaussHermite n t l * Real.exp (-(t ^ 2 / (2 * l ^ 2))))
-      (gaussHermite (n + 1) t l * Real.exp (-(t ^ 2 / (2 * l ^ 2)))) t := by
-  have hg : HasDerivAt (fun t : ℝ => Real.exp (-(t ^ 2 / (2 * l ^ 2))))
-      (-(t / l ^ 2) * Real.exp (-(t ^ 2 / (2 * l ^ 2)))) t := by
-    have := (((hasDerivAt_id t).pow 2).div_const (2 * l ^ 2)).neg.exp
-    refine this.congr_deriv ?_
-    simp; field_simp
-  have hid := hasDerivAt_id t
-  have hcases : n = 0 ∨ n = 1 ∨ n = 2 ∨ n = 3 := by omega
-  rcases hcases with rfl | rfl | rfl | rfl
-  · simp only [gaussHermite, lit_real, sq_real, npow_real]
-    refine ((hasDerivAt_const t (((1 : ℚ) : ℝ))).mul hg).congr_deriv ?_
-    push_cast; field_simp; ring
-  · simp only [gaussHermite, lit_real, sq_real, npow_real]
-    refine (((hid.mul_const (((1 : ℚ) : ℝ) / l ^ 2)).neg).mul hg).congr_deriv ?_
-    simp only [Pi.neg_apply, id]; push_cast; field_simp; ring
-  · simp only [gaussHermite, lit_real, sq_real, npow_real]
-    refine ((((hid.pow 2).mul_const ((((1 : ℚ) : ℝ) / l ^ 2) ^ 2)).sub_const (((1 : ℚ) : ℝ) / l ^ 2)).mul hg).congr_deriv ?_
-    simp only [Pi.pow_apply, id]; push_cast; field_simp; ring
-  · simp only [gaussHermite, lit_real, sq_real, npow_real]
-    refine ((((hid.const_mul (((3 : ℚ) : ℝ))).mul_const ((((1 : ℚ) : ℝ) / l ^ 2) ^ 2)).sub
-      ((hid.pow 3).mul_const ((((1 : ℚ) : ℝ) / l ^ 2) ^ 3))).mul hg).congr_deriv ?_
-    simp only [Pi.pow_apply, Pi.sub_apply, id]; push_cast; field_simp; ring
+      (gaussHermite (n + 1) t l * Real.exp (-(t ^ 2 / (2 * l ^ 2)))) t :=
+  hasDerivAt_hermite_core l t hl n hn
+
+/-- **RBFKernelGradGrad, full strength** (all `d`, ARD, all rows): with `d = a.length`, for every dimension
+`k < d` and every column component `L` / row component `R` (value, first or second derivative):
+`∂/∂a_k` maps row component `0 ↦ k+1 ↦ d+k+1`, `∂/∂b_k` maps column component `0 ↦ k+1 ↦ d+k+1`.
+Hence every one of the 9 block types is the corresponding mixed partial derivative (orders ≤ 2 per argument, total
+order ≤ 4) of the `(0,0)` entry `rbfSpec`.  Proof: the entry is a product over dimensions of signed Hermite
+factors times the kernel (`ggProd`); one coordinate enters through one factor (`ggProd_set_left/right`), whose
+derivative is the 1-d core `hasDerivAt_hermite_core`. -/
+theorem rbfGradGrad_entries_are_partials (ls a b : List ℝ) (k R L : ℕ)
+    (hka : k < a.length) (hkb : k < b.length) (hkl : k < ls.length) (hl0 : ls.getD k 1 ≠ 0) :
+    (∀ x, HasDerivAt (fun x => rbfGradGradEntry ls (a.set k x) b 0 L) (rbfGradGradEntry ls (a.set k x) b (k + 1) L) x) ∧
+    (∀ x, HasDerivAt (fun x => rbfGradGradEntry ls (a.set k x) b (k + 1) L)
+            (rbfGradGradEntry ls (a.set k x) b (a.length + k + 1) L) x) ∧
+    (∀ y, HasDerivAt (fun y => rbfGradGradEntry ls a (b.set k y) R 0) (rbfGradGradEntry ls a (b.set k y) R (k + 1)) y) ∧
+    (∀ y, HasDerivAt (fun y => rbfGradGradEntry ls a (b.set k y) R (k + 1))
+            (rbfGradGradEntry ls a (b.set k y) R (a.length + k + 1)) y) := by
+  have hL := ggOrder_le_two a.length L k
+  have hR := ggOrder_le_two a.length R k
+  have h0 : ggOrder a.length 0 k = 0 := by simp [ggOrder]
+  have h1 : ggOrder a.length (k + 1) k = 1 := by
+    have : k + 1 ≤ a.length := hka
+    simp [ggOrder, this]
+  refine ⟨?_, ?_, ?_, ?_⟩
+  · intro x
+    simp only [rbfGradGradEntry, List.length_set]
+    rw [← bump_ggOrder_zero a.length k hka]
+    exact hasDerivAt_ggEntry_left _ _ ls a b k x hka hkb hkl hl0 (by omega)
+  · intro x
+    simp only [rbfGradGradEntry, List.length_set]
+    rw [← bump_ggOrder_first a.length k hka]
+    exact hasDerivAt_ggEntry_left _ _ ls a b k x hka hkb hkl hl0 (by omega)
+  · intro y
+    simp only [rbfGradGradEntry]
+    rw [← bump_ggOrder_zero a.length k hka]
+    exact hasDerivAt_ggEntry_right _ _ ls a b k y hka hkb hkl hl0 (by omega)
+  · intro y
+    simp only [rbfGradGradEntry]
+    rw [← bump_ggOrder_first a.length k hka]
+    exact hasDerivAt_ggEntry_right _ _ ls a b k y hka hkb hkl hl0 (by omega)
 
 /-! ### the hypotheses above are satisfiable (non-vacuity) -/
 
